@@ -97,45 +97,50 @@ Proof. exact end_chunk_pauses. Qed.
 Print Assumptions C08_pause_on_chunk_count.
 
 (* resume: after any consumption step (_read_nowait_chunk, including the re-entrant feeding it may
-   trigger) the transport is paused only if the buffer is at/above the low-water mark or at least
-   low_water_chunks splits are outstanding *)
+   trigger) the transport is paused only if the buffer is non-empty and at/above the low-water mark, or
+   at least low_water_chunks splits are outstanding.  `Wq true s` (0 <= low <= high, 2 <= lowc <= highc)
+   holds in every reachable state when limit >= 0 (C08_water_marks_ordered). *)
 Theorem C08_resume_below_low_water : forall n f r s,
-  Inv s -> W s -> buf s = f :: r -> pause_justified (fst (rnc n f r s)).
+  Inv s -> Wq true s -> buf s = f :: r -> pause_justified (fst (rnc n f r s)).
 Proof. exact rnc_resume_rule. Qed.
 Print Assumptions C08_resume_below_low_water.
 
-(* no stuck pause: for limit >= 1, whenever the reader is suspended in _wait the buffer is empty and
-   the transport is reading; more generally an empty buffer is never left paused *)
-Theorem C08_not_stuck_partial : forall limit ops,
-  1 <= limit ->
+Theorem C08_water_marks_ordered : forall limit ops,
+  0 <= limit -> Wq true (sst (fst (run ops (init_sys limit)))).
+Proof. exact Wb_run. Qed.
+Print Assumptions C08_water_marks_ordered.
+
+(* no stuck pause, for EVERY limit (including read_bufsize = 0 and negative values): whenever the
+   reader is suspended in _wait the buffer is empty and the transport is reading; more generally an
+   empty buffer is never left paused.  (Before repair b609c8c this needed 1 <= limit and was refuted
+   at limit = 0; the old witness is now the regression case corpus/C08/limit0_stuck.json and the
+   example below.) *)
+Theorem C08_not_stuck : forall limit ops,
   let y := fst (run ops (init_sys limit)) in
   wt (sst y) = Waiting -> buf (sst y) = [] /\ paused (sst y) = false.
 Proof. exact not_stuck. Qed.
-Print Assumptions C08_not_stuck_partial.
+Print Assumptions C08_not_stuck.
 
-Theorem C08_empty_buffer_is_reading_partial : forall limit ops,
-  1 <= limit ->
+Theorem C08_empty_buffer_is_reading : forall limit ops,
   let y := fst (run ops (init_sys limit)) in
   buf (sst y) = [] -> paused (sst y) = false.
 Proof. exact empty_buffer_reading. Qed.
-Print Assumptions C08_empty_buffer_is_reading_partial.
+Print Assumptions C08_empty_buffer_is_reading.
 
-(* The hypothesis 1 <= limit cannot be dropped: with limit = 0 (read_bufsize=0) the full statement is
-   false.  feed_data(b"abc"); readany(); readany()  leaves the reader suspended with the transport
-   paused.  Replayed on the implementation: corpus/C08/limit0_stuck.json (known finding). *)
-Theorem C08_not_stuck_refuted : exists limit ops,
-  let y := fst (run ops (init_sys limit)) in
-  wt (sst y) = Waiting /\ task y <> None /\ buf (sst y) = [] /\ paused (sst y) = true.
-Proof.
-  exists 0, [OFeed [97%N; 98%N; 99%N]; OStart CReadAny; OStart CReadAny].
-  vm_compute. repeat split; discriminate.
-Qed.
-Print Assumptions C08_not_stuck_refuted.
+(* the former counterexample: limit = 0, feed_data(b"abc"); readany(); readany() now ends with the
+   reader suspended and the transport reading *)
+Example C08_example_limit0 :
+  let y := fst (run [OFeed [97%N; 98%N; 99%N]; OStart CReadAny; OStart CReadAny] (init_sys 0)) in
+  wt (sst y) = Waiting /\ task y <> None /\ buf (sst y) = [] /\ paused (sst y) = false.
+Proof. vm_compute. repeat split; discriminate. Qed.
+Print Assumptions C08_example_limit0.
 
-(* non-vacuity: the water-mark hypothesis W holds for every limit >= 1 initially, and a concrete run
+(* non-vacuity: the water-mark hypothesis holds initially for every limit >= 0, and a concrete run
    with chunks, re-entrant feeding, a blocked reader and EOF *)
-Example C08_example_W : W (init 1) /\ W (init 65536).
-Proof. split; apply W_init; lia. Qed.
+Example C08_example_W : Wq true (init 0) /\ Wq true (init 65536) /\ Wq false (init (-5)).
+Proof.
+  split; [apply W_init; intros _; lia|split; [apply W_init; intros _; lia|apply W_init; discriminate]].
+Qed.
 Print Assumptions C08_example_W.
 
 Example C08_example_run :
